@@ -72,7 +72,10 @@ const dirtyRa = "   foo\n##!>   assemble\nbar\n ##!<\n\n\n"
 
 func putCRSTree(w *World, root string, t *rapid.T, label string) {
 	w.Put(root+"/regex-assembly/942100.ra", dirtyRa)
-	w.Put(root+"/regex-assembly/942110.ra", "  ##!+ i\n  baz[a-c]\n")
+	w.Put(root+"/regex-assembly/942110.ra", "  ##!+ i\n  baz[a-c]\n  ##!> include ../../shared-data/common\n ##!> include ../../../beside-the-root/words\n")
+	// include names may lead out of regex-assembly (shared word lists): reading them is fine, formatting them is not format's business
+	w.Put(root+"/shared-data/common.ra", "   shared\n  words\n")
+	w.Put(filepath.Clean(root+"/../beside-the-root/words.ra"), "   beside\n")
 	// formatted, but with an upper-case class under the i flag: format --check reports it (lint) and must still not write
 	w.Put(root+"/regex-assembly/942180.ra", raHeader+"\n##!+ i\nfoo[A-Z]bar\n")
 	w.Put(root+"/regex-assembly/942190.ra", "   ##!+ i\n qux[A-Z]\n")
